@@ -413,7 +413,7 @@ func run(args []string) int {
 	if capS == 0 {
 		capS = 150
 		if *tier == "thorough" {
-			capS = 1500
+			capS = 2400
 		}
 	}
 	deadline := time.Now().Add(time.Duration(capS) * time.Second).Unix()
@@ -915,35 +915,35 @@ func writeEvidence(prop, tier string, seed uint64, info *propInfo, t *summary, d
 		dn = t.Nontrivial
 	}
 	cov := map[string]interface{}{
-		"evaluations":          t.Runs,
-		"distinct_nontrivial":  dn,
-		"rule":                 info.Rule,
-		"samples":              t.Samples,
-		"enumerated_scripts":   t.Enumerated,
-		"nontrivial_runs":      t.Nontrivial,
-		"distinct_schedules":   distinct,
-		"distinct_states":      states,
-		"runs_per_hour":        int(float64(t.Runs) / (explS + 0.001) * 3600),
-		"seeds":                fmt.Sprintf("VERIF_SEED=%d, run indices 0..%d (per-run seed = splitmix(VERIF_SEED, property, index))", seed, t.Runs),
-		"sim_time_s":           float64(t.VTimeNs) / 1e9,
-		"scheduling_points":    t.Steps,
-		"task_switches":        t.Switches,
-		"faults_fired":         t.Faults,
-		"probes":               t.Probes,
-		"strategies":           t.Strategies,
-		"run_status":           t.Status,
-		"aborted_runs":         t.Aborted,
-		"determinism_rechecks": map[string]int{"reexecuted": t.Rechecks, "mismatches": t.Nondet},
-		"components":           map[string]interface{}{"real": info.Real, "stub": info.Stub},
-		"known_findings_seen":  known,
-		"violation_signatures": reported,
+		"evaluations":                 t.Runs,
+		"distinct_nontrivial":         dn,
+		"rule":                        info.Rule,
+		"samples":                     t.Samples,
+		"enumerated_scripts":          t.Enumerated,
+		"nontrivial_runs":             t.Nontrivial,
+		"distinct_schedules":          distinct,
+		"distinct_states":             states,
+		"runs_per_hour":               int(float64(t.Runs) / (explS + 0.001) * 3600),
+		"seeds":                       fmt.Sprintf("VERIF_SEED=%d, run indices 0..%d (per-run seed = splitmix(VERIF_SEED, property, index))", seed, t.Runs),
+		"sim_time_s":                  float64(t.VTimeNs) / 1e9,
+		"scheduling_points":           t.Steps,
+		"task_switches":               t.Switches,
+		"faults_fired":                t.Faults,
+		"probes":                      t.Probes,
+		"strategies":                  t.Strategies,
+		"run_status":                  t.Status,
+		"aborted_runs":                t.Aborted,
+		"determinism_rechecks":        map[string]int{"reexecuted": t.Rechecks, "mismatches": t.Nondet},
+		"components":                  map[string]interface{}{"real": info.Real, "stub": info.Stub},
+		"known_findings_seen":         known,
+		"violation_signatures":        reported,
 		"other_property_observations": t.Side,
-		"workers":              workers,
-		"build_s":              buildS,
-		"tree_hash":            b.treeHash,
-		"race_build":           race,
-		"infrastructure_notes": infra,
-		"exhaustive":           false,
+		"workers":                     workers,
+		"build_s":                     buildS,
+		"tree_hash":                   b.treeHash,
+		"race_build":                  race,
+		"infrastructure_notes":        infra,
+		"exhaustive":                  false,
 	}
 	if len(t.Porcupine) > 0 {
 		cov["porcupine"] = t.Porcupine
